@@ -138,9 +138,28 @@ func runC01(c *Ctx) {
 				getString = call
 			}
 		}
+		// the message may be read by a helper (readPassword): the helper must itself return nil only for a
+		// well-formed password message and hand back the string it read
+		var helperPassword ssa.Value
 		if typeVal == nil {
+			for _, ci := range core.Calls(fn) {
+				call, ok := ci.(*ssa.Call)
+				if !ok || !core.InstrDominates(call, vcall) {
+					continue
+				}
+				h := core.StaticCallee(call)
+				if h == nil || !c.P.InPkg(h, "wire") || errResultOf(call) == nil {
+					continue
+				}
+				if okH, idx := c.readsPasswordMessage(h, fk); okH {
+					helperPassword = resultOf(call, idx)
+					R.OK("C01.R1", fk+":message-read-by-helper:"+fkey(h), c.at(call), "the password message is read by a helper that returns nil only for a well-formed password message", fkey(h)+": every nil-able return dominated by read ok, type == 'p', field ok; returns the GetString result")
+				}
+			}
+		}
+		if typeVal == nil && helperPassword == nil {
 			R.Fail("C01.R1", fk+":message-type-test", c.atFn(fn), "the strategy reads a typed message and tests its type against ClientPassword", "no ReadTypedMsg whose type result is used dominates the validator call")
-		} else {
+		} else if typeVal != nil {
 			steps = append(steps, step{"message type == ClientPassword ('p')", constEqEdges(typeVal, 'p', true), vcall})
 		}
 		inAccept := func(b *ssa.BasicBlock) (bool, string) {
@@ -173,7 +192,10 @@ func runC01(c *Ctx) {
 				"AuthenticationOk may be emitted without: "+missing)
 		}
 		// (c) the password handed to the validator is the string read from the password message
-		if getString == nil || len(vcall.Call.Args) < 4 || core.Strip(vcall.Call.Args[len(vcall.Call.Args)-1]) != resultOf(getString, 0) {
+		pwArg := core.Strip(vcall.Call.Args[len(vcall.Call.Args)-1])
+		if helperPassword != nil && pwArg == helperPassword {
+			R.OK("C01.R1", fk+":validator-password-arg", c.at(vcall), "the validator's password argument is the GetString result of the password message", "argument is the string returned by the message-reading helper")
+		} else if getString == nil || len(vcall.Call.Args) < 4 || pwArg != resultOf(getString, 0) {
 			R.Fail("C01.R1", fk+":validator-password-arg", c.at(vcall), "the validator's password argument is the GetString result of the password message", "the password argument does not originate from the message's GetString")
 		} else {
 			R.OK("C01.R1", fk+":validator-password-arg", c.at(vcall), "the validator's password argument is the GetString result of the password message", "argument is Extract #0 of "+callDescr(getString))
@@ -264,24 +286,25 @@ func runC01(c *Ctx) {
 		}
 	}
 
-	// ---------- R4: serve gating
+	// ---------- R4: serve gating (serve may be split into helpers: the rules range over its region)
 	serve := c.mustMethod("C01.R4", "wire", "Server", "serve")
 	ha := c.P.Method("wire", "Server", "handleAuth")
 	if serve != nil && ha != nil {
 		R.Analysed(fname(serve))
-		hcalls := callsIn(serve, calleeIs(ha))
+		region := c.serveRegion()
+		var hcalls []ssa.CallInstruction
+		for fn := range region {
+			hcalls = append(hcalls, callsIn(fn, calleeIs(ha))...)
+		}
 		if len(hcalls) != 1 {
-			R.Fail("C01.R4", "serve:handleAuth-call", c.atFn(serve), "serve authenticates exactly once", sprintf("found %d calls of handleAuth", len(hcalls)))
+			R.Fail("C01.R4", "serve:handleAuth-call", c.atFn(serve), "serve authenticates exactly once", sprintf("found %d calls of handleAuth on serve's path", len(hcalls)))
 			return
 		}
 		hcall := hcalls[0].(*ssa.Call)
-		herr := errResultOf(hcall)
-		if herr == nil {
+		if errResultOf(hcall) == nil {
 			R.Fail("C01.R4", "serve:handleAuth-error", c.at(hcall), "serve inspects the authentication verdict", "the error result of handleAuth is discarded")
 			return
 		}
-		okEdges := nilEdges(herr, true)
-		badEdges := nilEdges(herr, false)
 		phase := map[string]func(ssa.CallInstruction) bool{
 			"writeParameters":      calleeIs(c.P.Method("wire", "Server", "writeParameters")),
 			"session middleware":   throughField(pkWire, "Server", "Session"),
@@ -290,63 +313,149 @@ func runC01(c *Ctx) {
 			"consumeCommands loop": calleeIs(c.P.Method("wire", "Session", "consumeCommands")),
 		}
 		for _, name := range sortedKeys(phase) {
-			sites := callsIn(serve, phase[name])
+			var sites []ssa.CallInstruction
+			for fn := range region {
+				sites = append(sites, callsIn(fn, phase[name])...)
+			}
 			R.Floor("C01.R4", "call sites of the authenticated phase: "+name, len(sites), 1)
 			for _, ci := range sites {
-				R.Check(anyDominates(okEdges, ci.Block()), "C01.R4", "serve:gate:"+name, c.at(ci), name+" runs only after handleAuth returned a nil error",
-					"dominated by the err == nil edge of handleAuth", name+" is reachable without passing the err == nil edge of handleAuth")
+				ok, why := c.gatedBy(hcall, ci, 0)
+				R.Check(ok, "C01.R4", "serve:gate:"+name, c.at(ci), name+" runs only after handleAuth returned a nil error", "gated by the err == nil edge of handleAuth ("+why+")", name+" is reachable without passing the err == nil edge of handleAuth: "+why)
 			}
 		}
-		// nothing but logging happens on the rejecting edge
-		for _, be := range badEdges {
-			reach := reachableAvoiding(be.to(), func(*ssa.BasicBlock) bool { return false })
-			clean := true
-			for b := range reach {
-				for _, in := range b.Instrs {
-					ci, ok := in.(ssa.CallInstruction)
-					if !ok {
-						continue
-					}
-					if isLoggerCall(ci) {
-						continue
-					}
-					clean = false
-					R.Fail("C01.R4", "serve:reject-edge-effect:"+callDescr(ci), c.at(ci), "on the rejecting edge of handleAuth serve only logs and returns", "a call is reachable after authentication failed: "+callDescr(ci))
+		// nothing but logging happens on the rejecting edge (in the function that authenticates and in its callers up to serve)
+		var gateCalls []*ssa.Call
+		gateCalls = append(gateCalls, hcall)
+		for cur := hcall; cur.Parent() != serve; {
+			sites := c.P.CallSitesOf(cur.Parent())
+			if len(sites) != 1 {
+				break
+			}
+			up, ok := sites[0].(*ssa.Call)
+			if !ok {
+				break
+			}
+			gateCalls = append(gateCalls, up)
+			cur = up
+		}
+		for _, gc := range gateCalls {
+			ev := errResultOf(gc)
+			if ev == nil {
+				if gc != hcall && flowsToReturn(gc) {
+					continue // `return helper(...)`: the caller above is inspected instead
 				}
-			}
-			if clean {
-				R.OK("C01.R4", "serve:reject-edge-returns", c.at(be.to().Instrs[0]), "on the rejecting edge of handleAuth serve only logs and returns", sprintf("%d block(s) reachable, no call other than logging", len(reach)))
-			}
-		}
-		// deferred close dominates the authentication step
-		closed := false
-		for _, ci := range core.Calls(serve) {
-			if d, ok := ci.(*ssa.Defer); ok && d.Call.IsInvoke() && d.Call.Method.Name() == "Close" && core.InstrDominates(d, hcall) {
-				closed = true
-			}
-		}
-		R.Check(closed, "C01.R4", "serve:deferred-close", c.at(hcall), "a deferred Close of the connection is registered before authentication", "defer conn.Close() dominates the handleAuth call", "no deferred connection Close dominates the authentication step: a refused connection may stay open")
-
-		// who-may-call: the command loop is entered only through the gate
-		chain := [][2]string{{"consumeCommands", "serve"}, {"consumeSingleCommand", "consumeCommands"}, {"handleCommand", "consumeSingleCommand"}}
-		for _, lk := range chain {
-			callee := c.P.Method("wire", "Session", lk[0])
-			if callee == nil {
-				R.Fail("C01.R4", "who-may-call:"+lk[0], "-", "anchor resolves", "method Session."+lk[0]+" not found")
+				R.Fail("C01.R4", "serve:verdict-dropped:"+callDescr(gc), c.at(gc), "the authentication verdict is inspected at every level", "the error result of "+callDescr(gc)+" is discarded")
 				continue
 			}
-			sites := c.P.CallSitesOf(callee)
-			ok := len(sites) >= 1
-			var who []string
-			for _, s := range sites {
-				who = append(who, fkey(s.Parent()))
-				if s.Parent().Name() != lk[1] {
-					ok = false
+			for _, be := range failEdges(ev) {
+				reach := reachableAvoiding(be.to(), func(*ssa.BasicBlock) bool { return false })
+				clean := true
+				for b := range reach {
+					if !be.dominates(b) {
+						continue
+					}
+					for _, in := range b.Instrs {
+						ci, ok := in.(ssa.CallInstruction)
+						if !ok || isLoggerCall(ci) {
+							continue
+						}
+						clean = false
+						R.Fail("C01.R4", "serve:reject-edge-effect:"+callDescr(ci), c.at(ci), "on the rejecting edge of the authentication step serve only logs and returns", "a call is reachable after authentication failed: "+callDescr(ci))
+					}
+				}
+				if clean {
+					R.OK("C01.R4", "serve:reject-edge-returns:"+fkey(gc.Parent()), c.at(be.to().Instrs[0]), "on the rejecting edge of the authentication step serve only logs and returns", sprintf("%d block(s) reachable, no call other than logging", len(reach)))
 				}
 			}
-			R.Check(ok, "C01.R4", "who-may-call:"+lk[0], c.atFn(callee), lk[0]+" is called only from "+lk[1], sprintf("callers: %v", who), sprintf("callers: %v — the command loop can be entered around the authentication gate", who))
+		}
+		// deferred close dominates the authentication step (or the call that leads to it) in serve
+		top := gateCalls[len(gateCalls)-1]
+		closed := false
+		if top.Parent() == serve {
+			for _, ci := range core.Calls(serve) {
+				if d, ok := ci.(*ssa.Defer); ok && d.Call.IsInvoke() && d.Call.Method.Name() == "Close" && core.InstrDominates(d, top) {
+					closed = true
+				}
+			}
+		}
+		R.Check(closed, "C01.R4", "serve:deferred-close", c.at(hcall), "a deferred Close of the connection is registered before authentication", "defer conn.Close() in serve dominates the authentication step", "no deferred connection Close in serve dominates the authentication step: a refused connection may stay open")
+
+		// who-may-call: the command loop is entered only through serve
+		for _, name := range []string{"consumeCommands", "consumeSingleCommand", "handleCommand"} {
+			callee := c.P.Method("wire", "Session", name)
+			if callee == nil {
+				R.Fail("C01.R4", "who-may-call:"+name, "-", "anchor resolves", "method Session."+name+" not found")
+				continue
+			}
+			ok, who := c.onlyReachedThrough(callee, serve, 0)
+			R.Check(ok, "C01.R4", "who-may-call:"+name, c.atFn(callee), name+" is reachable only through serve (behind the authentication gate)", sprintf("callers: %v", who), sprintf("callers: %v — the command loop can be entered around the authentication gate", who))
 		}
 	}
+}
+
+// gatedBy reports whether instruction site can execute only if call returned a nil error. The two may
+// live in different functions of a split serve: a helper that contains the call must return nil only on
+// the call's nil edge, and the caller must test the helper's error in turn.
+func (c *Ctx) gatedBy(call *ssa.Call, site ssa.Instruction, depth int) (bool, string) {
+	if depth > 4 {
+		return false, "call chain too deep"
+	}
+	ev := errResultOf(call)
+	F, G := call.Parent(), site.Parent()
+	if F == G {
+		if ev != nil && anyDominates(nilEdges(ev, true), site.Block()) {
+			return true, "dominated by the nil edge in " + fkey(F)
+		}
+		return false, "not dominated by the nil edge of " + callDescr(call) + " in " + fkey(F)
+	}
+	// site inside a callee of F: the call that leads there must be gated in F
+	for _, s2 := range core.Calls(F) {
+		if callee := core.StaticCallee(s2); callee != nil && c.reachesFn(callee, G, 0) {
+			if ok, why := c.gatedBy(call, s2, depth+1); ok {
+				return true, why + ", then into " + fkey(G)
+			}
+		}
+	}
+	// site in a caller of F: F must return nil only on the call's nil edge, and its caller must test F's error
+	for _, r := range returns(F) {
+		cls := c.Err().Classify(errOperand(r), r.Block())
+		if !cls.MayBeNil() {
+			continue
+		}
+		// `return call(...)` forwards the verdict itself
+		if roots := core.ErrRoots(errOperand(r)); len(roots) == 1 && roots[0] == ssa.Value(call) {
+			continue
+		}
+		if ev == nil || !anyDominates(nilEdges(ev, true), r.Block()) {
+			return false, fkey(F) + " can return nil without " + callDescr(call) + " having succeeded"
+		}
+	}
+	for _, s := range c.P.CallSitesOf(F) {
+		up, ok := s.(*ssa.Call)
+		if !ok {
+			continue
+		}
+		if ok2, why := c.gatedBy(up, site, depth+1); ok2 {
+			return true, fkey(F) + " returns nil only on the nil edge; " + why
+		}
+	}
+	return false, "no gating relation between " + fkey(F) + " and " + fkey(G)
+}
+
+// reachesFn: target is fn or statically reachable from it inside S.
+func (c *Ctx) reachesFn(fn, target *ssa.Function, depth int) bool {
+	if fn == target {
+		return true
+	}
+	if depth > 5 || fn == nil || !c.P.InScope(fn) {
+		return false
+	}
+	for _, ci := range core.Calls(fn) {
+		if callee := core.StaticCallee(ci); callee != nil && callee != fn && c.reachesFn(callee, target, depth+1) {
+			return true
+		}
+	}
+	return false
 }
 
 func isLoggerCall(ci ssa.CallInstruction) bool {
@@ -422,4 +531,58 @@ func retDescr(r *ssa.Return) string {
 		s += p
 	}
 	return s
+}
+
+// readsPasswordMessage: helper h reads one typed message and returns (string, error) such that every
+// return that may be nil is dominated by: read err == nil, type == 'p', GetString err == nil; and the
+// string returned there is the GetString result. Returns the index of the string result.
+func (c *Ctx) readsPasswordMessage(h *ssa.Function, fk string) (bool, int) {
+	var rtm, gs *ssa.Call
+	for _, ci := range core.Calls(h) {
+		if call, ok := ci.(*ssa.Call); ok {
+			switch readerMethod(call) {
+			case "ReadTypedMsg":
+				rtm = call
+			case "GetString":
+				gs = call
+			}
+		}
+	}
+	if rtm == nil || gs == nil {
+		return false, 0
+	}
+	strIdx := -1
+	for i := 0; i < h.Signature.Results().Len(); i++ {
+		if bt, ok := h.Signature.Results().At(i).Type().Underlying().(*types.Basic); ok && bt.Kind() == types.String {
+			strIdx = i
+		}
+	}
+	if strIdx < 0 {
+		return false, 0
+	}
+	typeVal := resultOf(rtm, 0)
+	if typeVal == nil {
+		return false, 0
+	}
+	conds := [][]edge{nilEdges(errResultOf(rtm), true), constEqEdges(typeVal, 'p', true), nilEdges(errResultOf(gs), true)}
+	for _, r := range returns(h) {
+		cls := c.Err().Classify(errOperand(r), r.Block())
+		if !cls.MayBeNil() {
+			continue
+		}
+		for i, es := range conds {
+			if anyDominates(es, r.Block()) {
+				continue
+			}
+			// `return reader.GetString()`: the pair (string, error) is forwarded unchanged, the caller tests it
+			if i == 2 && errOperand(r) == errResultOf(gs) {
+				continue
+			}
+			return false, 0
+		}
+		if core.Strip(r.Results[strIdx]) != resultOf(gs, 0) {
+			return false, 0
+		}
+	}
+	return true, strIdx
 }
